@@ -1,5 +1,6 @@
 import TypifyModel.Proofs.C01
 import TypifyModel.Proofs.C01Findings
+import TypifyModel.Proofs.Dispatch
 open TypifyModel.C01
 #print axioms wf_compiles
 #print axioms wf_unique_items
@@ -26,3 +27,5 @@ open TypifyModel.C01
 #print axioms TypifyModel.C01Findings.setVec_not_compiles
 #print axioms TypifyModel.C01Findings.aliasCycle_not_compiles
 #print axioms TypifyModel.C01.wf_deref_finite
+#print axioms TypifyModel.Dispatch.fragment_never_todo
+#print axioms TypifyModel.Dispatch.todo_witnesses
